@@ -34,6 +34,10 @@ type GraphOpts struct {
 	// variant builds with tree shaking disabled (known finding c02/order-no-tree-shaking: a file is
 	// then one part, so in-place evaluated modules run after hoisted ES siblings imported later).
 	AvoidInPlaceOrder bool
+	// DualPkg: a node_modules package with both "main" (CommonJS) and "module" (ESM) that is imported
+	// by an ES module and required by a CommonJS module of the same bundle (dual package hazard path).
+	// Only for oracles that do not compare with native Node (Node ignores "module").
+	DualPkg bool
 }
 
 type GModule struct {
@@ -401,6 +405,17 @@ func GenGraph(r *Rand, o GraphOpts) *Graph {
 		}
 		fmt.Fprintf(&sb, "late%d();\n", e)
 		m.Source = sb.String()
+	}
+	if o.DualPkg {
+		g.Files["node_modules/pkg/package.json"] = "{\"name\": \"pkg\", \"main\": \"./main.js\", \"module\": \"./module.js\"}\n"
+		g.Files["node_modules/pkg/main.js"] = "p(\"pkg:main\");\nexports.v = \"from-main\";\n"
+		g.Files["node_modules/pkg/module.js"] = "p(\"pkg:module\");\nexport const v = \"from-module\";\n"
+		g.Files["usepkg.cjs"] = "const q = require(\"pkg\");\np(\"usepkg\", q.v);\nexports.z = 1;\n"
+		m0 := mods[0]
+		if !m0.CJS {
+			m0.Source = "import { v as pkgv } from \"pkg\";\nimport \"./usepkg.cjs\";\n" + m0.Source + "p(\"m0:pkg\", pkgv);\n"
+		}
+		g.stat("dual-pkg")
 	}
 	for _, m := range mods {
 		g.Files[m.Path] = m.Source
